@@ -291,6 +291,45 @@ pub mod stdspec {
         ensures
             r is Some <==> rsplit_once_spec::<P>(s@, p) is Some,
             r is Some ==> (r->0).0@ == (rsplit_once_spec::<P>(s@, p)->0).0 && (r->0).1@ == (rsplit_once_spec::<P>(s@, p)->0).1;
+//# section: stdspec-saturating
+    // TRUSTED: {signed integer}::saturating_add / saturating_sub clamp the mathematical result to the type's range
+    // (std docs; vstd itself specifies the unsigned ones).
+    pub assume_specification [i8::saturating_add] (a: i8, b: i8) -> (r: i8)
+        ensures (a + b > i8::MAX ==> r == i8::MAX), (a + b < i8::MIN ==> r == i8::MIN),
+                (i8::MIN <= a + b <= i8::MAX ==> r == a + b);
+    pub assume_specification [i8::saturating_sub] (a: i8, b: i8) -> (r: i8)
+        ensures (a - b > i8::MAX ==> r == i8::MAX), (a - b < i8::MIN ==> r == i8::MIN),
+                (i8::MIN <= a - b <= i8::MAX ==> r == a - b);
+    pub assume_specification [i16::saturating_add] (a: i16, b: i16) -> (r: i16)
+        ensures (a + b > i16::MAX ==> r == i16::MAX), (a + b < i16::MIN ==> r == i16::MIN),
+                (i16::MIN <= a + b <= i16::MAX ==> r == a + b);
+    pub assume_specification [i16::saturating_sub] (a: i16, b: i16) -> (r: i16)
+        ensures (a - b > i16::MAX ==> r == i16::MAX), (a - b < i16::MIN ==> r == i16::MIN),
+                (i16::MIN <= a - b <= i16::MAX ==> r == a - b);
+    pub assume_specification [i32::saturating_add] (a: i32, b: i32) -> (r: i32)
+        ensures (a + b > i32::MAX ==> r == i32::MAX), (a + b < i32::MIN ==> r == i32::MIN),
+                (i32::MIN <= a + b <= i32::MAX ==> r == a + b);
+    pub assume_specification [i32::saturating_sub] (a: i32, b: i32) -> (r: i32)
+        ensures (a - b > i32::MAX ==> r == i32::MAX), (a - b < i32::MIN ==> r == i32::MIN),
+                (i32::MIN <= a - b <= i32::MAX ==> r == a - b);
+    pub assume_specification [i64::saturating_add] (a: i64, b: i64) -> (r: i64)
+        ensures (a + b > i64::MAX ==> r == i64::MAX), (a + b < i64::MIN ==> r == i64::MIN),
+                (i64::MIN <= a + b <= i64::MAX ==> r == a + b);
+    pub assume_specification [i64::saturating_sub] (a: i64, b: i64) -> (r: i64)
+        ensures (a - b > i64::MAX ==> r == i64::MAX), (a - b < i64::MIN ==> r == i64::MIN),
+                (i64::MIN <= a - b <= i64::MAX ==> r == a - b);
+    pub assume_specification [i128::saturating_add] (a: i128, b: i128) -> (r: i128)
+        ensures (a + b > i128::MAX ==> r == i128::MAX), (a + b < i128::MIN ==> r == i128::MIN),
+                (i128::MIN <= a + b <= i128::MAX ==> r == a + b);
+    pub assume_specification [i128::saturating_sub] (a: i128, b: i128) -> (r: i128)
+        ensures (a - b > i128::MAX ==> r == i128::MAX), (a - b < i128::MIN ==> r == i128::MIN),
+                (i128::MIN <= a - b <= i128::MAX ==> r == a - b);
+    pub assume_specification [isize::saturating_add] (a: isize, b: isize) -> (r: isize)
+        ensures (a + b > isize::MAX ==> r == isize::MAX), (a + b < isize::MIN ==> r == isize::MIN),
+                (isize::MIN <= a + b <= isize::MAX ==> r == a + b);
+    pub assume_specification [isize::saturating_sub] (a: isize, b: isize) -> (r: isize)
+        ensures (a - b > isize::MAX ==> r == isize::MAX), (a - b < isize::MIN ==> r == isize::MIN),
+                (isize::MIN <= a - b <= isize::MAX ==> r == a - b);
 //# section: stdspec-drop
     pub assume_specification<T> [core::mem::drop::<T>] (x: T);
 //# section: stdspec-end
